@@ -254,6 +254,8 @@ class Race:
                 if op == "ao_start":
                     a = H.new_ao("ao%d" % i, state, start=False)
                     a.start_at(state)
+                elif op == "pub":
+                    fab.publish(Event(signal="A", payload="w%d" % i))
                 else:
                     getattr(fab, op)()
             done.append(i)
@@ -317,7 +319,10 @@ def race_params(tier):
           {"pre": ["start"], "threads": [["stop", "start"], ["start"]]},
           {"pre": ["start"], "threads": [["stop"], ["stop"]]},
           {"pre": ["start"], "threads": [["stop"], ["ao_start"]]},
-          {"pre": ["start"], "threads": [["clear"], ["stop"]]}]
+          {"pre": ["start"], "threads": [["clear"], ["stop"]]},
+          # stop() arriving while a delivery is in progress
+          {"pre": ["start"], "threads": [["pub"], ["stop"]]},
+          {"pre": ["start"], "threads": [["pub", "pub"], ["stop", "start"]]}]
     if not q:
         ps.append({"threads": [["start"], ["start"], ["start"]], "expect_running": True})
         ps.append({"pre": ["start"], "threads": [["stop", "start"], ["ao_start"]]})
